@@ -231,11 +231,9 @@ func (g Gateway) Set(ctx context.Context, in *hydrapb.SetRequest) (*hydrapb.SetR
 
 			// this is a meaningless setting
 			if !swampRequest.GetCreateIfNotExist() && !swampRequest.GetOverwrite() {
-				swampResponses = append(swampResponses, &hydrapb.SwampResponse{
-					SwampName:       swampRequest.SwampName,
-					KeysAndStatuses: []*hydrapb.KeyStatusPair{},
-					ErrorCode:       hydrapb.SwampResponse_CanNotBeExecuted.Enum(),
-				})
+				// exactly one response per requested swamp: report the error on that response
+				swampResponse.KeysAndStatuses = []*hydrapb.KeyStatusPair{}
+				swampResponse.ErrorCode = hydrapb.SwampResponse_CanNotBeExecuted.Enum()
 				return
 			}
 
@@ -243,11 +241,8 @@ func (g Gateway) Set(ctx context.Context, in *hydrapb.SetRequest) (*hydrapb.SetR
 			if !swampRequest.GetCreateIfNotExist() {
 				isExist, err := hydraInterface.IsExistSwamp(swampRequest.GetIslandID(), swampName)
 				if err != nil || !isExist {
-					swampResponses = append(swampResponses, &hydrapb.SwampResponse{
-						SwampName:       swampRequest.SwampName,
-						KeysAndStatuses: []*hydrapb.KeyStatusPair{},
-						ErrorCode:       hydrapb.SwampResponse_SwampDoesNotExist.Enum(),
-					})
+					swampResponse.KeysAndStatuses = []*hydrapb.KeyStatusPair{}
+					swampResponse.ErrorCode = hydrapb.SwampResponse_SwampDoesNotExist.Enum()
 					return
 				}
 			}
